@@ -168,6 +168,9 @@ class LDMService:
         current_time = TimestampIts.initialize_with_utc_timestamp_seconds()
         notify_time = subscription.subscription_request.notify_time
         with self._lock:
+            # The attendance pass works on a snapshot: a subscription removed since then is not notified any more.
+            if subscription not in self.subscriptions:
+                return
             last_checked = self.last_checked_subscriptions_time.get(subscription)
             if last_checked is None:
                 self.last_checked_subscriptions_time[subscription] = current_time
